@@ -29,6 +29,24 @@ type LineInfo struct {
 	StartIdx int
 	// LineText
 	LineText []rune
+	// ContinuesLine - for a line that begins inside a multi-line literal or comment: 1 + the
+	// index of the line it continues (0 for an ordinary line). Such a line has no indentation
+	// of its own; what follows the literal / comment on it belongs to the statement, and the
+	// block, of the line where the token began.
+	ContinuesLine int
+}
+
+// BlockIndents - the indentation that decides to which block the tokens of line idx belong:
+// its own, or - for a line that begins inside a multi-line token - that of the line it continues
+func (l *Lexer) BlockIndents(idx int) int {
+	for steps := 0; idx >= 0 && idx < len(l.Lines) && steps <= len(l.Lines); steps++ {
+		c := l.Lines[idx].ContinuesLine
+		if c <= 0 || c-1 >= idx {
+			return l.Lines[idx].Indents
+		}
+		idx = c - 1
+	}
+	return 0
 }
 
 // Token - general token type
